@@ -346,18 +346,7 @@ func withClosureCalls(f *ssa.Function, name string) []ssa.CallInstruction {
 }
 
 func guardEdges(ds *core.Describer, fn *ssa.Function, g core.GuardSpec) map[*ssa.BasicBlock]int {
-	est := map[*ssa.BasicBlock]int{}
-	for _, b := range fn.Blocks {
-		if len(b.Instrs) == 0 {
-			continue
-		}
-		if ifi, ok := b.Instrs[len(b.Instrs)-1].(*ssa.If); ok {
-			if s := g(core.DecodeCond(ds, ifi)); s >= 0 {
-				est[b] = s
-			}
-		}
-	}
-	return est
+	return core.GuardEdges(ds, fn, g)
 }
 
 func typeName(t types.Type) string {
